@@ -62,6 +62,10 @@ def configs(tier):
         for unw in (True, False):
             out.append({'kind': 'dense', 'nc': nc, 'geom': 'zigzag', 'wmi': 'dense', 'ncl': nc, 'thr': 0.5,
                         'unwhiten': unw, 'nsw': 2, 'first_call': True})
+    # channel positions stored as unsigned integers
+    for nc in (3, 4):
+        out.append({'kind': 'dense', 'nc': nc, 'geom': 'zigzag_u32', 'wmi': 'I', 'ncl': 2, 'thr': None,
+                    'unwhiten': True, 'nsw': 2})
     for nc in (3, 4):
         out.append({'kind': 'dense_explicit', 'nc': nc, 'geom': 'zigzag', 'wmi': 'dense', 'ncl': 2, 'thr': None,
                     'unwhiten': True, 'nsw': 2})
